@@ -2,6 +2,7 @@
 """seed_recheck.py [seed-id ...]  — applies each seeded change to /repo, runs the check of its property
 (quick tier), restores /repo, and records the verdict in seeded/<id>/meta.json (detected_by)."""
 import json, os, subprocess, sys, glob
+os.environ["VERIF_EVIDENCE_DIR"] = "/tmp/verif-seed-evidence"  # never overwrite the unchanged tree's evidence
 V = os.path.dirname(os.path.dirname(os.path.abspath(__file__)))
 def sh(cmd, cwd):
     p = subprocess.run(cmd, cwd=cwd, shell=True, stdout=subprocess.PIPE, stderr=subprocess.STDOUT, text=True)
